@@ -9,14 +9,19 @@ def register(prop, J):
               "of C01 values in all formats under 1-2 truncations / single edits / rotations, read as their own type, as another "
               "shape or through the generic operations; (c) rapid-generated untyped Go values (nil, typed nil pointers, channels, "
               "funcs, structs, wrong key kinds, nested maps / slices) through the untyped-value reader and RawRecord; non-trivial = "
-              "input that is not a valid encoding (contains a delimiter / was actually changed); distinct by (entry, input)",
+              "input that is not a valid encoding (contains a delimiter / was actually changed); distinct by (entry, input); (d) HTTP: the wire request of a generated valid call under 1-2 mutations of path, query, "
+              "body, Rest.li / tunnelling headers or verb against the generated server (never 5xx, no stack trace, no resource code "
+              "behind a 4xx); the wire response of a valid call under mutations of body, id / version / error headers and status "
+              "served to the generated client (an error, never a panic)",
          jobs=[
              J("hostile-v2", "v2", "codecprops", "^TestC04", checks=(20000, 1000000), shards=(4, 16), prepare="prepare_codec",
                extra_pkgs=["dyn", "gendrv"], timeout=(900, 3000)),
+             J("hostile-http-v2", "v2", "resprops", "^TestC04", checks=(8000, 400000), shards=(4, 16), prepare="prepare_resources",
+               extra_pkgs=["dyn", "gendrv"], timeout=(1200, 3000)),
          ],
          level_text="every decoder call runs under panic capture and a watchdog (30 s without progress = hang): the oracle is 'returns a "
                     "value or an error'; complete enumeration of short delimiter strings plus generated mutations of valid documents",
-         level_note="the HTTP half of the property (4xx not 5xx, client-side errors) is checked by the resource-level harness; native "
-                    "coverage-guided fuzzing runs only in the thorough tier",
+         level_note="a mutated request may still be valid: then a 2xx with exactly one invocation is accepted; only 5xx, crashes, stack "
+                    "traces and invocations behind a 4xx are violations",
          technique="exhaustive enumeration + mutation-based property testing (rapid) with a crash / hang oracle",
          design_ref="2/C04")
